@@ -100,10 +100,13 @@ def main():
     ok_all = True
     for name, check in EXPECT.items():
         red = {}
-        for screen in ("fake_hook", "pty"):
+        for screen in ("fake_hook", "pty", "fake_nohook"):
             for loop in ("select", "asyncio"):
+                if screen == "fake_nohook" and loop != "select":
+                    continue
                 for inj in (None, {"kind": "keypress", "idx": 2, "exc": "exc"}, {"kind": "alarm", "idx": 0, "exc": "exit"}):
-                    case = {"screen": screen, "loop": loop, "pop_ups": False, "session": sess, "inject": inj, "mutate": name}
+                    ses = [st for st in sess if st[0] != "pipe"] if screen == "fake_nohook" else sess
+                    case = {"screen": screen, "loop": loop, "pop_ups": False, "session": ses, "inject": inj, "mutate": name}
                     if screen == "pty":
                         case["pty"] = b.PTY_CFGS[3]
                     res = b.run_cases([case])[0]
